@@ -81,8 +81,9 @@ type hist struct {
 	knownIDs  map[string]bool
 	texts     map[string]bool // user supplied texts (lock messages, ...)
 	// pending accepted moderations: target handle -> groups
-	pendingMods map[int][]string
-	stream      string
+	pendingMods  map[int][]string
+	pendingKinds map[int][]string
+	stream       string
 }
 
 var galeneTexts = map[string]bool{
@@ -109,7 +110,7 @@ func newHist(t *tr.Trace, r *tr.Rand, stream string) *hist {
 	}
 	t.History("sig", stream)
 	return &hist{t: t, r: r, w: w, tokReal: map[string]string{}, tokCanon: map[string]string{},
-		knownIDs: map[string]bool{}, texts: map[string]bool{}, pendingMods: map[int][]string{},
+		knownIDs: map[string]bool{}, texts: map[string]bool{}, pendingMods: map[int][]string{}, pendingKinds: map[int][]string{},
 		stream: stream}
 }
 
